@@ -53,3 +53,13 @@ func init() {
 			Expect: "none", Benign: true},
 	)
 }
+
+func init() {
+	const off = "libs/bun/bunpaginate/pagination_offset.go"
+	addMutants(
+		Mutant{Property: "C17", Name: "offset-next-skips-the-extra-row", File: off, Old: "\t\tcp.Offset = query.Offset + query.PageSize\n", New: "\t\tcp.Offset = query.Offset + query.PageSize + 1\n", Expect: "R17f:"},
+		Mutant{Property: "C17", Name: "offset-previous-not-clamped", File: off, Old: "\t\tif offset < 0 {\n\t\t\toffset = 0\n\t\t}\n", New: "", Expect: "R17f:"},
+		Mutant{Property: "C17", Name: "offset-limit-without-lookahead", File: off, Old: "sb.Limit(int(query.PageSize) + 1)", New: "sb.Limit(int(query.PageSize))", Expect: "R17f:"},
+		Mutant{Property: "C17", Name: "offset-next-when-page-is-full", File: off, Old: "len(ret) > int(query.PageSize)", New: "len(ret) >= int(query.PageSize)", Expect: "R17f:"},
+	)
+}
